@@ -7,6 +7,7 @@ import ScriggoV.Model.Eval
 * `sh <op> <kind> <ckind> <x> <n>` — `x << n` / `x >> n`, count of kind `ckind`
 * `un <op> <kind> <x>`
 * `conv <src> <dst> <x>`
+* `convstr <src> <x>`             — `string(x)`, answers `ok <vm hex> <spec hex>`
 * `cmp <op> <kind> <x> <y>`
 * `eval <n> <v1> … <vn> <expr in prefix notation>` — the reference evaluator
 
@@ -64,6 +65,10 @@ def handle : List String → Option String
     let dst ← Kind.ofName dst
     let x ← operand src x
     pure ("ok " ++ showVM dst (vmConv src dst (reg x)) ++ " " ++ showSpec (.ok (conv dst x)))
+  | ["convstr", src, x] => do
+    let src ← Kind.ofName src
+    let x ← operand src x
+    pure ("ok " ++ toHex (vmConvStr src (reg x)) ++ " " ++ toHex (intToString x))
   | ["cmp", op, k, x, y] => do
     let op ← Eval.cmpOfName op
     let k ← Kind.ofName k
